@@ -220,17 +220,19 @@ def rule_crdts(ctx: Ctx) -> None:
     for q, argts, argval in (("set", "timestamp", "value"), ("merge", "other._timestamp", "other._value")):
         fn = lw.methods[q]
         bad = []
-        for cur, new in itertools.product((None, 1, 2), (None, 1, 2)):
+        # the held and the incoming value may be *equal* too: re-writing the held value later is still the later write (its timestamp must
+        # be taken over, or a concurrent write in between wins everywhere)
+        for (cur, new), (vold, vnew) in itertools.product(itertools.product((None, 1, 2), (None, 1, 2)), (("old", "new"), ("same", "same"))):
             if q == "set" and new is None:
                 continue
-            env = {"self._timestamp": cur, "self._value": "old", argts: new, argval: "new"}
+            env = {"self._timestamp": cur, "self._value": vold, argts: new, argval: vnew}
             if q == "merge":
-                env["other"] = {"_timestamp": new, "_value": "new"}
+                env["other"] = {"_timestamp": new, "_value": vnew}
             _, ev = _post_state(fn, env)
             got = (ev.env["self._value"], ev.env["self._timestamp"])
-            want = ("new", new) if (new is not None and (cur is None or new > cur)) else ("old", cur)
+            want = (vnew, new) if (new is not None and (cur is None or new > cur)) else (vold, cur)
             if got != want:
-                bad.append(f"current={cur} incoming={new}: got {got}, want {want}")
+                bad.append(f"current={cur}/{vold!r} incoming={new}/{vnew!r}: got {got}, want {want}")
         ctx.ob("C18-3", "G3", fn, "greatest timestamp wins", not bad, f"LWWRegister.{q}: the write with the strictly greater timestamp wins, value and timestamp move together, ties/older keep the current pair" + ("" if not bad else " — " + "; ".join(bad[:3])))
     ctx.ob("C18-3", "G9", lw.methods["merge"], "merge leaves other untouched", not _writes_through(lw.methods["merge"], "other"), "LWWRegister.merge changes only this replica")
     r = [s for s in lw.methods["__eq__"].node.body if isinstance(s, ast.Return) and isinstance(s.value, ast.BoolOp)]
@@ -406,6 +408,7 @@ def run(ctx: Ctx) -> None:
 
 
 MUTANTS = [
+    ("lww-set-skips-rewrite-of-held-value", LWW, "        if self._timestamp is None or timestamp > self._timestamp:\n            self._value = value\n            self._timestamp = timestamp\n", "        if self._timestamp is not None and value == self._value:\n            return\n        if self._timestamp is None or timestamp > self._timestamp:\n            self._value = value\n            self._timestamp = timestamp\n", "C18-3"),
     ("gossip-push-skips-merge-on-equal-hash", STORE, "        # Merge remote state into local\n        self._merge_remote_state(remote_state)\n", "        if remote_hash and remote_hash == self._state_hash():\n            return None\n        self._merge_remote_state(remote_state)\n", "C18-5"),
     ("state-hash-over-values", STORE, "{self._crdts[key].to_dict()}", "{self._crdts[key].value!r}", "C18-5"),
     ("lamport-receive-no-increment", LC, "        self._time = max(self._time, remote_ts) + 1", "        self._time = max(self._time, remote_ts)", "C18-1"),
